@@ -1343,8 +1343,23 @@ def main2():
         print("src2v2: FAILED", e)
 
 
+def main3():
+    """third part of Tie A (work package c07rng: entropy sites, what reaches the encryption layer's inner
+    writer): tools/src2v3_fresh.py -> coq/gen/Src3.v; fails closed as a whole"""
+    sys.path.insert(0, os.path.dirname(os.path.abspath(__file__)))
+    try:
+        import src2v3_fresh
+        src2v3_fresh.main()
+    except Exception as e:  # fail closed: the lemmas of SrcTie3Fresh.v stop compiling
+        outp = os.environ.get("VERIF_SRC3_OUT") or os.path.join(os.path.dirname(os.path.normpath(OUT)), "Src3.v")
+        with open(outp, "w") as f:
+            f.write("(* GENERATED: tools/src2v3_fresh.py failed: %s *)\nDefinition src3_untranslatable : unit := tt.\n" % str(e).replace("*)", "* )"))
+        print("src2v3_fresh: FAILED", e)
+
+
 if __name__ == "__main__":
     main()
     main2()
     import src2v3_reader  # work package readerT: coq/gen/Src3d.v (fails closed per item)
     src2v3_reader.main()
+    main3()
